@@ -82,7 +82,19 @@ def c16(ctx):
     ctx.gotest("tracer", "^TestVerifC16", race=True, timeout=3000)
 
 
+def c10(ctx):
+    ctx.gotest("cc", "^TestVerifC10", race=True, timeout=3000)
+    if ctx.tier == "thorough":
+        for gm in ("1", "4"):
+            ctx.gotest("cc", "^TestVerifC10Mux$", race=True, timeout=3000, label="cc-c10-gomaxprocs%s" % gm, env={"GOMAXPROCS": gm, "VERIF_PARTSUFFIX": gm})
+
+
 SPECS = {
+    "C10": {"fn": c10, "level": "fault_enumeration",
+            "technique": "runtime monitoring under the race detector: offline exactly-once checker over recorded histories (send returns, client reads/writes with unique answer tokens, callbacks) of the real client multiplexer driven by a scripted hostile client with injected delays; every byte-offset cut of answer streams",
+            "text": "The real clientProcessRunner (runClient over runInProcess, real io.Pipe plumbing) is driven by 1-4 concurrent senders and a scripted client that reorders, omits, duplicates, garbles, truncates (after every byte offset), oversizes, stops reading, answers early, exits or stalls; the recorded history is checked for: exactly one callback per accepted request with the token of the client's first complete answer or an error, no callback for refused sends, refusal of late sends, isRunning()==false, termination within the progress bound, no data race.",
+            "note": "Interleavings are sampled (delays 0-2 ms inside the stdin reads and before answers, GOMAXPROCS 1/4/16 in thorough); stalled-client histories use the real 20 s timeout and are few.",
+            "assumptions": ["progress bound 90 s = 3 x (20 s read timeout + 3 s wait + 5 s abort grace)"]},
     "C16": {"fn": c16, "level": "exploration",
             "technique": "runtime monitoring under the race detector: porcupine linearizability checking of recorded Init/Complete/Await/Clear histories (partitioned by test name) against a sequential slot model, exhaustive sequential operation orders with provably-blocked waiters, and an online exactly-once/prefix-closed monitor on builder completion",
             "text": "Every operation order up to length 5 (thorough 6) over up to 3 names and 2 waiters is executed against the real Tracer with waiters that are provably blocked before the next operation; thousands of concurrent histories with unique completion ids are recorded at the API boundary and checked with porcupine; the real builder / TracingRoundTripper / TracingHandler are driven by racing producer goroutines and the Collector counts completions and inspects the delivered event list.",
